@@ -584,6 +584,19 @@ class CallMixin:
             names = list(c.params)
             bound = dict(zip(names, args))
             bound.update(kwargs)
+        if getattr(self, 'frame_only', False):
+            # frame analysis: only the callee's write set matters
+            for a in c.assigns:
+                self.havoc_assigned(a, bound, st)
+                v_ = bound.get(a.split('.')[0])
+                if isinstance(v_, (Ref, Ptr)) and getattr(v_, 'oid', None) is not None:
+                    obj_ = st.heap[v_.oid]
+                    self.frame_write(obj_, a.split('.')[1] if '.' in a else None, st, node)
+            if c.returns is None and c.lang == 'c' and finfo is not None:
+                rt = (getattr(finfo.node, 'rettype', '') or '').strip()
+                c.returns = {'seq_t': 'val', 'double': 'val', 'idx_t': 'int', 'int': 'int', 'bool': 'bool',
+                             '_Bool': 'bool', 'void': None}.get(rt)
+            return self.fresh_result(c, st)
         cs = st.fork()
         cs.pc = st.pc
         cs.vars = dict(bound)
